@@ -164,7 +164,7 @@ fn run(t: &mut Tape, info: &mut CaseInfo, prof: &MapProfile, long: bool) -> Resu
     info.comparisons += 2;
 
     let lazer_non_classic = dspec.lazer != Some(false)
-        && !dspec.mods.effective_extras(target).contains(&LazerExtra::Classic);
+        && !dspec.mods.has_classic(target);
     let mut states = Vec::new();
     let n_states = t.range(1, 4) as usize;
     let mut any_hit = false;
